@@ -172,7 +172,7 @@ def lean_stage(mod: Any, ctx: Ctx) -> dict[str, Any]:
             info["axioms"] = {k: v for k, v in ax.items()}
         except leanio.LeanError as e:
             ctx.proof_fail(str(e), {"log": e.log[-3000:]})
-    hits = leanio.grep_forbidden()
+    hits = leanio.grep_forbidden(ctx.prop)
     if hits:
         ctx.proof_fail("forbidden constructs in Lean sources", {"hits": hits[:20]})
         info["discharged"] = 0
